@@ -102,6 +102,11 @@ def gen_ops(ctx):
             continue
         pairs.append((s.tl(), new.tl()))
         kinds.append(k)
+    # a mask / nat source re-pointed between template argument #k and field #k (k = 0, 1, 2), nothing else changed
+    for j in range(12 if quick else 120):
+        k_, v_ = (0, 1, 2)[j % 3], L.MASK_SOURCE_VARIANTS[(j // 3) % len(L.MASK_SOURCE_VARIANTS)]
+        pairs.append(L.mask_source_pair(rng, k_, v_))
+        kinds.append("unsafe:mask-source-moved")
     items = [(k, "pair", o, p, None) for (o, p), k in zip(L.write_pairs(ctx, pairs), kinds)]
     ops, go, dropped = L.build_lint_ops(ctx, items, variant)
     if ops is None:
@@ -115,9 +120,9 @@ def gen_ops(ctx):
     byk = {}
     for i, o in acc:
         byk.setdefault(o[1], []).append((i, o))
-    chosen = []
+    chosen = [byk['unsafe:mask-source-moved'].pop(0) for _ in range(min(3, len(byk.get('unsafe:mask-source-moved', []))))]
     while len(chosen) < want and any(byk.values()):   # round robin over the kinds
-        for k in sorted(byk, key=lambda k: (not k.startswith(('ty-', 'unsafe:')), k)):   # the accepted-but-unsafe kinds first
+        for k in sorted(byk, key=lambda k: (k != 'unsafe:mask-source-moved', not k.startswith(('ty-', 'unsafe:')), k)):   # the accepted-but-unsafe kinds first
             if byk[k] and len(chosen) < want:
                 chosen.append(byk[k].pop(0))
     binp, usable, lg = gen_pairs_module(ctx, [(i, o[2]["old"], o[2]["new"]) for i, o in chosen])
@@ -184,7 +189,9 @@ def oracle(ctx, ops, go_out):
         if r.startswith("same"):
             same += 1
             continue
-        if kind == "ty-bare":
+        if kind == "unsafe:mask-source-moved":
+            sig = "C28:accepted-incompatible:mask-source-moved"
+        elif kind == "ty-bare":
             sig = "C28:F2:bare-flag"
         elif kind == "ty-rep":
             sig = "C28:repeat-contents"
